@@ -402,7 +402,7 @@ fn expand_tuple_assertion(value_expr: &TokenStream, pattern: &PatternTuple) -> T
 
     quote! {
         #[allow(unreachable_patterns)]
-        match #value_expr {
+        match &#value_expr {
             (#(#match_patterns),*) => {
                 #(#element_assertions)*
             },
@@ -633,7 +633,7 @@ fn expand_regex_assertion(value_expr: &TokenStream, pattern: &PatternRegex) -> T
             use ::assert_struct::Like;
             let __assert_struct_re = ::assert_struct::__macro_support::Regex::new(#pattern_str)
                 .expect(concat!("Invalid regex pattern: ", #pattern_str));
-            if !#value_expr.like(&__assert_struct_re) {
+            if !(#value_expr).like(&__assert_struct_re) {
                 #error_push
             }
         }
@@ -653,7 +653,7 @@ fn expand_like_assertion(value_expr: &TokenStream, pattern: &PatternLike) -> Tok
     quote_spanned! {span=>
         {
             use ::assert_struct::Like;
-            if !#value_expr.like(&#pattern_expr) {
+            if !(#value_expr).like(&#pattern_expr) {
                 #error_push
             }
         }
@@ -804,7 +804,10 @@ fn expand_set_assertion(value_expr: &TokenStream, pattern: &PatternSet) -> Token
 
     quote! {
         {
-            let __set_coll: ::std::vec::Vec<_> = (&(#value_expr)).into_iter().collect();
+            // Bind the source first so that a by-value result (a method call, a function
+            // call) lives as long as the references collected from it.
+            let __set_src = &(#value_expr);
+            let __set_coll: ::std::vec::Vec<_> = __set_src.into_iter().collect();
             #(#pred_defs)*
             let __set_preds: &[&dyn ::std::ops::Fn(usize) -> bool] = &[#(&#pred_names),*];
             ::assert_struct::__macro_support::set_match(
